@@ -229,3 +229,38 @@ Qed.
 
 Lemma gr_scale_x_eq KF xs : gr_scale_x KF xs == gr_scale KF xs.
 Proof. unfold gr_scale_x, gr_scale. rewrite gr_var_x_eq. reflexivity. Qed.
+
+(* ------------------------------------------------------------------ an empty component (population exactly 0) *)
+Lemma qsum_zeros n : qsum (repeat 0 n) == 0.
+Proof.
+  induction n as [|n IH]; [reflexivity|].
+  change (qsum (repeat 0 (S n))) with (0 + qsum (repeat 0 n)). rewrite IH. ring.
+Qed.
+
+Lemma qdot_zeros n xs : qdot (repeat 0 n) xs == 0.
+Proof.
+  unfold qdot. revert xs; induction n as [|n IH]; intros [|x xs]; try reflexivity.
+  change (qsum (qmul2 (repeat 0 (S n)) (x :: xs))) with (0 * x + qsum (qmul2 (repeat 0 n) xs)).
+  rewrite IH. ring.
+Qed.
+
+Lemma wss_zeros em n xs : wss em xs (repeat 0 n) == 0.
+Proof.
+  revert n; induction xs as [|x xs IH]; intros [|n]; try reflexivity.
+  change (wss em (x :: xs) (repeat 0 (S n))) with ((x - em) * (x - em) * 0 + wss em xs (repeat 0 n)).
+  rewrite IH. ring.
+Qed.
+
+(* the fitted mean of an empty component is its prior mean, its covariance the prior term:
+   neither depends on the data, so translation / scaling act on them through the prior only *)
+Lemma ms_empty_component small tiny asq m0 s0 dof0 dim n xs : ~ small == 0 ->
+  ms_mean small m0 (repeat 0 n) xs == m0 /\
+  ms_cov small tiny asq s0 dof0 dim (repeat 0 n) xs == (1 / s0) / (dof0 + dim + 2).
+Proof.
+  intros Hs. split.
+  - unfold ms_mean. rewrite qdot_zeros, qsum_zeros. field. exact Hs.
+  - unfold ms_cov. rewrite wss_zeros, qsum_zeros.
+    setoid_replace (small * 0 / (0 + small)) with 0 by (unfold Qdiv; ring).
+    setoid_replace (dof0 + 0 + dim + 2) with (dof0 + dim + 2) by ring.
+    setoid_replace (1 / s0 + 0 + asq * 0) with (1 / s0) by ring. reflexivity.
+Qed.
